@@ -209,6 +209,7 @@ fn accepted_mask(section: &str, prefix: &str, lines: &[&str]) -> Vec<bool> {
 }
 
 fn check(plan: &SectionPlan, lines: &[&str], acc: &mut Acc) {
+    let _g = crate::engine::watch::guard("records", |s| s.push_str(&format!("[{}] {lines:?}", plan.name)));
     acc.evals += 1;
     acc.transitions += lines.len() as u64;
     let mask = match guarded(|| accepted_mask(plan.name, plan.prefix, lines)) {
